@@ -15,23 +15,23 @@ theorem decSub_eq (d : Dec) (r a b : Nat) (first : Bool) (v g : Nat) (hv : v = d
     (hg : g = if first then d.rng - r * b else r * (a - b)) :
     ({ d with val := v, rng := g } : Dec) = decSub d r a b first := by subst hv hg; rfl
 
-theorem DecInv.set_ext {B : List Nat} {S : Nat} {e : Enc} {d : Dec} (h : DecInv B S e d) (x : Nat) :
-    DecInv B S e { d with ext := x } :=
+theorem DecInv.set_ext {B : List Nat} {S : Nat} {e : Enc} {d : Dec} {Bt : List Nat} (h : DecInv B S e d Bt)
+    (x : Nat) : DecInv B S e { d with ext := x } Bt :=
   ⟨h.buf_eq, h.storage_eq, h.rng_eq, h.nbits_eq, h.val_eq, h.offs_eq, h.rem_eq⟩
 
 /-- Invariant D across the subdivision step, and where the decoder's `val` lies. -/
-theorem decSub_spec (B : List Nat) (S : Nat) (e : Enc) (d : Dec) (r a b : Nat) (first : Bool)
-    (inv : EncInv e) (ok : SubOk e.rng r a b) (dinv : DecInv B S e d)
-    (hc : Contains B S (encSub e r a b first)) :
-    DecInv B S (encSub e r a b first) (decSub d r a b first) ∧ r * b ≤ d.val ∧ d.val < e.rng ∧
+theorem decSub_spec (B : List Nat) (S : Nat) (e : Enc) (d : Dec) (r a b : Nat) (first : Bool) (Bt : List Nat)
+    (inv : EncInv e) (ok : SubOk e.rng r a b) (dinv : DecInv B S e d Bt)
+    (hc : Contains Bt S (encSub e r a b first)) :
+    DecInv B S (encSub e r a b first) (decSub d r a b first) Bt ∧ r * b ≤ d.val ∧ d.val < e.rng ∧
     (first = false → d.val < r * a) := by
   obtain ⟨f1, f2, f3⟩ := ok.facts
   have hr := ok.r_pos
-  have hc0 : Contains B S e := (encSub_spec e r a b first inv ok).2.2 B S hc
+  have hc0 : Contains Bt S e := (encSub_spec e r a b first inv ok).2.2 Bt S hc
   obtain ⟨ib, is, ir, inb, iv, io, irem⟩ := dinv
   unfold Contains encLow at hc hc0
   rw [encSub_digitsVal, encSub_encM] at hc
-  have key : (decSub d r a b first).val + codeVal B S (encM e + 4) / 2 + 1 =
+  have key : (decSub d r a b first).val + codeVal Bt S (encM e + 4) / 2 + 1 =
       digitsVal e * 2147483648 + (encSub e r a b first).val + (encSub e r a b first).rng ∧
       r * b ≤ d.val ∧ d.val < e.rng ∧ (first = false → d.val < r * a) ∧
       (decSub d r a b first).rng = (encSub e r a b first).rng := by
@@ -174,13 +174,13 @@ theorem decIcdf_spec (d : Dec) (tbl : List Nat) (ftb s : Nat) (l1 : IcdfOk tbl f
 
 /-- The decoder call of a primitive range-coded operation, expressed through `decSub`:
     the returned value matches and the new state is `decNormalize (decSub …)` (up to `ext`). -/
-theorem decOp_prim_eq (B : List Nat) (S : Nat) (e : Enc) (d : Dec) (op : Op) (inv : EncInv e) (hl : op.Legal)
-    {r a b : Nat} {first : Bool} (hsub : op.sub e.rng = some (r, a, b, first))
-    (dinv : DecInv B S e d) (hc : Contains B S (encSub e r a b first)) :
+theorem decOp_prim_eq (B : List Nat) (S : Nat) (e : Enc) (d : Dec) (op : Op) (Bt : List Nat) (inv : EncInv e)
+    (hl : op.Legal) {r a b : Nat} {first : Bool} (hsub : op.sub e.rng = some (r, a, b, first))
+    (dinv : DecInv B S e d Bt) (hc : Contains Bt S (encSub e r a b first)) :
     op.Matches (decOp d op).1 ∧
     ∃ x, (decOp d op).2 = decNormalize (decSub { d with ext := x } r a b first) := by
   have ok0 : SubOk e.rng r a b := (encOp_sub e op inv hl hsub).1
-  obtain ⟨_, k2, k3, k4⟩ := decSub_spec B S e d r a b first inv ok0 dinv hc
+  obtain ⟨_, k2, k3, k4⟩ := decSub_spec B S e d r a b first Bt inv ok0 dinv hc
   have hrng : d.rng = e.rng := dinv.rng_eq
   have rh : d.rng ≤ 2147483648 := by rw [hrng]; exact inv.rng_hi
   have rl : 8388608 < d.rng := by rw [hrng]; exact inv.rng_lo
